@@ -49,11 +49,11 @@ impl Check for C11 {
     fn phases(&self, tier: Tier, b: f64) -> Vec<Phase> {
         let q = tier == Tier::Quick;
         vec![
-            Phase { name: "well-formed values of all 16 structured types + 9 label types, built from struct literals", cases: scale(if q { 40000 } else { 1500000 }, b), exhaustive: false },
+            Phase { name: "well-formed values of all 16 structured types + 9 label types, built from struct literals", cases: scale(if q { 240000 } else { 1500000 }, b), exhaustive: false },
             Phase { name: "all 256 header field subsets as Header / built protected header / unprotected header of each message type", cases: 256, exhaustive: true },
             Phase { name: "protected header holding a single field only (the is_empty interaction), in every carrier", cases: 8 * 9, exhaustive: true },
-            Phase { name: "0/1/2/3 counter-signatures; recipient trees of depth <= 3 with empty and non-empty lists", cases: scale(if q { 3000 } else { 100000 }, b), exhaustive: false },
-            Phase { name: "values decoded from styled wire forms (retained protected bytes must be re-emitted)", cases: scale(if q { 5000 } else { 200000 }, b), exhaustive: false },
+            Phase { name: "0/1/2/3 counter-signatures; recipient trees of depth <= 3 with empty and non-empty lists", cases: scale(if q { 18000 } else { 100000 }, b), exhaustive: false },
+            Phase { name: "values decoded from styled wire forms (retained protected bytes must be re-emitted)", cases: scale(if q { 30000 } else { 200000 }, b), exhaustive: false },
         ]
     }
     fn run_case(&self, ctx: &mut Ctx, phase: usize, idx: u64) {
